@@ -402,7 +402,7 @@ BINARY = (
 )
 CLOSED = (
     "int", "str", "None", "Any", "object", "T", "UserId", "list", "dict", "tuple", "type", "List", "Dict", "Tuple", "Type", "Callable", "NoReturn", "Never", "LiteralString",
-    "Literal[1]", "Literal[1, 'a']", "Literal[True]", "Literal[None]", "Literal['a', 'b']", "Literal[-1]", "Tuple[()]", "tuple[()]", "Self", "Set", "FrozenSet", "Sequence",
+    "Literal[1]", "Literal[1, 'a']", "Literal[True]", "Literal[None]", "Literal['a', 'b']", "Literal[-1]", "Tuple[()]", "tuple[()]", "Self", "Set", "FrozenSet", "Sequence", "Literal[Literal[1], 2]", "Literal[Literal[1, 'a'], Literal[None]]",
 )
 TYPEDDICT_ONLY = ("Required[{0}]", "NotRequired[{0}]", "ReadOnly[{0}]", "Required[ReadOnly[{0}]]")
 
